@@ -128,7 +128,7 @@ def component_text(rng, version, cref, ec, tok, fill=0.5, invalid_p=0.0, depth=0
             first = False
             continue
         sdt = sub[1][2]
-        want = first or rng.random() < fill
+        want = first or sub[2][0] >= 1 or rng.random() < fill
         first = False
         if want and (T.is_base(version, sdt)):
             v, ok = leaf(sdt, tok, rng, invalid_p)
@@ -159,7 +159,7 @@ def field_text(rng, version, fref, ec, tok, fill=0.5, invalid_p=0.0, stats=None)
     parts = []
     first = True
     for comp in fref[1]:
-        want = (first or rng.random() < fill) and comp[1] is not None and comp[2][1] != 0 and comp[1][2] != 'WD'
+        want = (first or comp[2][0] >= 1 or rng.random() < fill) and comp[1] is not None and comp[2][1] != 0 and comp[1][2] != 'WD'
         first = False
         parts.append(component_text(rng, version, comp[1], ec, tok, fill * 0.7, invalid_p, 1, stats) if want else '')
     while parts and parts[-1] == '':
